@@ -36,6 +36,11 @@ var (
 	// the unicode-space family: characters that Unicode calls spaces but the
 	// rule does not (NBSP, EM SPACE), an astral rune, and the line breaks
 	uniAlpha = []string{"a", "<", " ", "\n", "\r", "N", "M", "A"}
+	// the line-break family: every character some standard calls a line break
+	// or vertical space but the rule does not (U+2028, U+0085 NEL, VT, FF)
+	// next to the ones it does (LF, CR)
+	lbAlpha = []string{"a", " ", "\n", "\r", "P", "N", "V", "F"}
+	lbReal  = map[rune]string{'P': "\u2028", 'N': "\u0085", 'V': "\v", 'F': "\f"}
 	// the bytes family: template text that is NOT valid UTF-8 (a Latin-1 high
 	// byte, a truncated 3-byte sequence, a lone continuation byte, 0xFF); to
 	// the rule each is just a non-whitespace character, and "nothing else"
@@ -62,7 +67,6 @@ func Run(ctx *core.Ctx) {
 	nText := ctx.Pick(5, 6)
 	nUni := ctx.Pick(4, 5)
 	nByte := ctx.Pick(4, 5)
-	nLit := ctx.Pick(3, 4)
 	nCom := ctx.Pick(5, 7)
 	full := ctx.Pick(4, 5)
 
@@ -123,11 +127,25 @@ func Run(ctx *core.Ctx) {
 		} else {
 			ReplayTexts(ctx, fb, nByte-1)
 		}
-		bodies, lctx, err := EnumerateLiterals(ctx, nLit)
+		fl, err := EnumerateTexts(ctx, "linebreaks", lbAlpha, lbReal, ctx.Pick(3, 5))
+		if err != nil {
+			ctx.ToolError("M2 linebreaks enumeration: %v", err)
+		} else {
+			ReplayTexts(ctx, fl, ctx.Pick(3, 4))
+		}
+		bodies, lctx, err := EnumerateLiterals(ctx, litAtoms, 3, "literals")
 		if err != nil {
 			ctx.ToolError("M2 literal enumeration: %v", err)
 		} else {
-			ReplayLiterals(ctx, bodies, lctx)
+			ReplayLiterals(ctx, "literals", litAtoms, bodies, lctx, 3)
+		}
+		if ctx.Thorough() {
+			bodies, lctx, err := EnumerateLiterals(ctx, litAtomsCore, 4, "literals-core4")
+			if err != nil {
+				ctx.ToolError("M2 literal enumeration (core atoms): %v", err)
+			} else {
+				ReplayLiterals(ctx, "literals-core4", litAtomsCore, bodies, lctx, 4)
+			}
 		}
 	}()
 	wg.Wait()
@@ -211,10 +229,10 @@ func ModelCheck(ctx *core.Ctx) map[string]*devResult {
 	if ctx.Thorough() {
 		refs = []ref{
 			{"M1-machine-equals-rule", 7, "Equiv SpacesInRange", 10},
-			{"M1-rule-properties", 6, "ANonWs AShape AVanish AIdem AWeak", 6},
+			{"M1-rule-properties", 6, "ANonWs AShape AVanish AIdem AWeak EolInvisible", 6},
 		}
 	} else {
-		refs = []ref{{"M1-reference", 5, "Equiv SpacesInRange ANonWs AShape AVanish AIdem AWeak", 8}}
+		refs = []ref{{"M1-reference", 5, "Equiv SpacesInRange ANonWs AShape AVanish AIdem AWeak EolInvisible", 8}}
 	}
 	var wg sync.WaitGroup
 	for _, r := range refs {
@@ -356,6 +374,8 @@ func Replay(ctx *core.Ctx) {
 		AccQ       []string `json:"acceptableQuoted"`
 		Segs       []Seg    `json:"segs"`
 		FilePrefix string   `json:"filePrefix"`
+		Eol        string   `json:"fileLineEnds"`
+		SrcSegs    []Seg    `json:"sourceSegs"`
 		Origin     string   `json:"origin"`
 	}
 	if err := json.Unmarshal(v.Replay, &rc); err != nil {
@@ -385,6 +405,9 @@ func Replay(ctx *core.Ctx) {
 		}
 	case "trace":
 		ln := &Line{Kind: "trace", Origin: rc.Origin, Segs: rc.Segs, FilePrefix: rc.FilePrefix}
+		if rc.Kind == "trace" && len(rc.SrcSegs) > 0 {
+			ln.Eol, ln.SrcSegs = rc.Eol, rc.SrcSegs
+		}
 		for i := range ln.Segs {
 			if ln.Segs[i].K == "tag" && ln.Segs[i].Src == "" {
 				ctx.ToolError("replay case lacks tag sources")
